@@ -63,6 +63,12 @@ var wellKnownTypes = []string{
 	"*errors.errorString",
 	"[]string",
 	"[]*github.com/ostafen/clover/v2/document.Document",
+	"[]*github.com/ostafen/clover/v2/index.Info",
+	"map[string]*github.com/ostafen/clover/v2/index.Range",
+	"*github.com/ostafen/clover/v2.NotFlattenVisitor",
+	"*github.com/ostafen/clover/v2.IndexSelectVisitor",
+	"*github.com/ostafen/clover/v2.FieldRangeVisitor",
+	"*github.com/ostafen/clover/v2.CriteriaNormalizeVisitor",
 }
 
 func tyKey(t types.Type) string {
